@@ -27,10 +27,8 @@ ConfDeposit(nd) == nd.a = "Deposit" =>
    LET g == nd.args IN Res(nd, Deposit(Pre(nd), Cfg(nd), g.u, g.coll, g.debt, g.prem, g.amt, g.denom))
 ConfCancel(nd) == nd.a = "Cancel" =>
    LET g == nd.args IN Res(nd, Cancel(Pre(nd), Cfg(nd), g.u, g.coll, g.debt, g.prem))
-(* the code today (unchecked) or the repaired behaviour (bounded by the own deposit, deposited denomination) *)
 ConfWithdraw(nd) == nd.a = "Withdraw" =>
-   LET g == nd.args IN \/ Res(nd, WithdrawCode(Pre(nd), Cfg(nd), g.u, g.coll, g.debt, g.prem, g.amt, g.denom))
-                       \/ Res(nd, WithdrawFixed(Pre(nd), Cfg(nd), g.u, g.coll, g.debt, g.prem, g.amt, g.denom))
+   LET g == nd.args IN Res(nd, Withdraw(Pre(nd), Cfg(nd), g.u, g.coll, g.debt, g.prem, g.amt, g.denom))
 
 (* ------------------------------ C11 ------------------------------ *)
 C11LimitTotal(nd) == IF IsStep(nd) THEN TotalFollows(Pre(nd), Post(nd)) ELSE TotalMatches(Post(nd))
